@@ -1,6 +1,8 @@
 // Run-time support for the generated RPC interfaces (C14): deterministic in-process loopback transport with exact
 // byte accounting, fd transport, handler invocation log, expected-return oracle.
 #pragma once
+#include <nop/utility/buffer_reader.h>
+#include <nop/utility/buffer_writer.h>
 #include <array>
 #include <functional>
 #include <map>
@@ -86,6 +88,13 @@ struct FdServer {
   FdServer(int wfd, int rfd) : ser{wfd}, des{rfd}, receiver{&ser, &des} {}
 };
 
+// ---- datagram-like transport through the shipped BufferReader / BufferWriter: one request in a buffer, the reply into a buffer
+struct BufServer {
+  nop::Serializer<nop::BufferWriter> ser; nop::Deserializer<nop::BufferReader> des;
+  nop::SimpleMethodReceiver<nop::Serializer<nop::BufferWriter>, nop::Deserializer<nop::BufferReader>> receiver;
+  BufServer(const std::uint8_t* req, std::size_t n, std::uint8_t* rep, std::size_t cap) : ser{rep, cap}, des{req, n}, receiver{&ser, &des} {}
+};
+
 // ---- stream transport through the shipped StreamReader / StreamWriter: two queue streambufs (request, reply); the reply buffer runs the server
 // when the client needs reply bytes that are not there yet, so everything stays on one thread. The stream objects live inside the
 // (de)serializers and are created per call over the persistent buffers (an istream that has seen EOF stays failed).
@@ -134,7 +143,7 @@ struct MethodRow {
   int iface, method; const char* iname; const char* mname; uint64_t selector; int bits; bool bound; int inst_id, tag;
   CallResult (*invoke)(Client&, Rng&); CallResult (*invoke_fd)(FdClient&, Rng&);
   nop::Status<void> (*serve)(Server&); nop::Status<void> (*serve_fd)(FdServer&);
-  CallResult (*invoke_st)(StClient&, Rng&); nop::Status<void> (*serve_st)(StServer&);
+  CallResult (*invoke_st)(StClient&, Rng&); nop::Status<void> (*serve_st)(StServer&); nop::Status<void> (*serve_buf)(BufServer&);
   std::vector<Sch> arg_schemas; Sch (*ret_schema)(); Val (*expected_ret)(const std::vector<Val>&, int, int);
 };
 std::vector<MethodRow> rpc_methods();
